@@ -31,7 +31,9 @@ Docs == <<
   [items |-> <<H(1)>>, term |-> FALSE, origins |-> {"parsed"}],
   \* the unterminated last line is a field with an EMPTY value ("B:" / "B: ")
   [items |-> <<F(1,0,1), BL, F(2,1,0)>>, term |-> FALSE, origins |-> {"parsed"}],
-  [items |-> <<F(2,0,0)>>, term |-> FALSE, origins |-> {"parsed", "para_parsed"}]
+  [items |-> <<F(2,0,0)>>, term |-> FALSE, origins |-> {"parsed", "para_parsed"}],
+  \* a repeated name in a paragraph built from pairs
+  [items |-> <<F(1,0,1), F(1,0,3), C(0,1)>>, term |-> TRUE, origins |-> {"built", "para_built"}]
 >>
 
 KeysSet == {1, 2}
